@@ -17,10 +17,8 @@ Three bounded / shape-complete components, all on the REAL functions of the chec
 """
 import hv.symx.core  # noqa: F401  (puts /repo on sys.path, pre-imports hy)
 
-import ast
 import importlib
 import importlib.machinery
-import itertools
 import json
 import os
 import pathlib
@@ -30,15 +28,10 @@ import subprocess
 import sys
 import tempfile
 import time
-import types
 from concurrent.futures import ThreadPoolExecutor
 
 import hy
-import hy.compiler as hcomp
-import hy.core.result_macros as rm
 import hy.importer as himp
-import hy.macros as hmac
-from hy.errors import HyLanguageError
 
 from hv import core
 from hv.props import _c15_gen as gen
@@ -61,9 +54,13 @@ META = {
             "For every generated module, importing from source and from cached bytecode (in five histories) gives the "
             "same values, the same macro and reader-macro tables, and the same expansion of every macro in the table.",
     "note": "Level other: file names, require shapes and generated modules are bounded samples of infinite domains. Trusted: "
-            "CPython's import system and .pyc validation, hy.mangle (C32), the generator's arithmetic oracle. Known finding: "
-            "a `require` in a branch the running program does not take is performed at compile time but not at run time, so "
-            "the macro is in `_hy_macros` after an import from source and missing after an import from bytecode.",
+            "CPython's import system and .pyc validation, hy.mangle (C32), the generator's arithmetic oracle. Known findings: "
+            "(F1) a module without macros of its own has an (empty) _hy_macros only when it was compiled in this process, so "
+            "`_hy_macros` means the module's table after an import from source and builtins._hy_macros after an import from "
+            "bytecode; (F2) a `require` in a branch the running program does not take is performed at compile time but not "
+            "at run time; (F3) a local `require` that names a submodule emits a run-time call that cannot succeed (same "
+            "failure from source and from bytecode). Relative module names with more dots than name parts, and relative names "
+            "in a local `require`, are refused at compile time (no bytecode exists), which is outside this property.",
 }
 
 PY = sys.executable
@@ -287,28 +284,37 @@ class Package:
 
 
 def e2e_package(args):
-    """All histories of one package, one child per step (sequential); returns the children's results."""
+    """All histories of one package (child processes run one after the other); returns the results by history tag."""
     scratch, pk, thorough = args
     P = pk.p.name
     names = pk.client_names
     res = {}
 
-    def step(tag, kind="import", root=None, order=None):
-        out = run_child(scratch, [{"kind": kind, "tag": tag, "root": root or pk.root, "modules": order or names, "probe": 5}],
-                        f"{P}_{tag}")
-        res[tag] = out
-        return out
+    def task(tag, kind="import", root=None, order=None):
+        return {"kind": kind, "tag": tag, "root": root or pk.root, "modules": order or names, "probe": 5}
+
+    def child(*tasks):
+        """One child process; every task's result is filed under its tag, in the shape of a single-task run."""
+        out = run_child(scratch, list(tasks), f"{P}_{tasks[0]['tag']}")
+        for t, r in zip(tasks, out["results"]):
+            res[t["tag"]] = dict(out, results=[r])
+
+    def step(tag, **kw):
+        child(task(tag, **kw))
 
     step("source")
+    n = make_sourceless(pk.root, pk.sl_root, P)
+    res["sourceless_files"] = n
+    # processes that have never seen the sources being compiled: bytecode only, three ways.  One process each: inspect's
+    # file-to-module cache (which hy.eval consults to find the calling module) would otherwise carry the `__main__` of
+    # the run-as-main history over to the next history in the same process
     step("cache", order=list(reversed(names)))
+    step("run-as-main", kind="runmod")
+    step("sourceless", root=pk.sl_root)
     bump(pk.other_files, 5)
     step("macro-modules-recompiled")
     bump(pk.client_files, 7)
     step("clients-recompiled")
-    step("run-as-main", kind="runmod")
-    n = make_sourceless(pk.root, pk.sl_root, P)
-    res["sourceless_files"] = n
-    step("sourceless", root=pk.sl_root)
     if thorough:
         half = [f for i, f in enumerate(sorted(pk.files.values())) if pk.rng.random() < 0.5]
         bump(half, 11)
@@ -441,7 +447,7 @@ def part_e2e(chk, scratch):
                detail=None if nf == 0 else f"{nf}/{n} comparisons; first: {firstbad[0]}",
                replay=None if nf == 0 or not firstbad[1] else {"confirmed": True, "input": firstbad[1], "observed": firstbad[0], "expected": name})
         kinds[name.split("/")[1]] = 1
-    chk.extra["e2e_child_processes"] = sum(len([k for k in r if isinstance(r[k], dict)]) for r in results) + 1
+    chk.extra["e2e_child_processes"] = npk * (8 if thorough else 6) + 1
     chk.extra["e2e_modules"] = sum(len(pk.files) for pk in packages)
     chk.canary("e2e: a module with a compile-time side effect (eval-when-compile) has the same values from source and from bytecode",
                canary_seen == len(packages))
